@@ -89,6 +89,9 @@ type Run struct {
 	objs      map[string]value // per-path engine objects (stub state)
 	counter   int
 	panicSite string
+	model     Model
+	mvalid    map[string]bool
+	pcVars    map[string]bool
 	panicFn   string
 }
 
@@ -191,7 +194,7 @@ func Explore(prog *ssa.Program, fn *ssa.Function, cfg Config) *Result {
 		cfg.MaxPreempt = 1 << 30
 	}
 	if len(cfg.Solvers) == 0 {
-		cfg.Solvers = []string{"z3", "cvc5-int", "z3-new"}
+		cfg.Solvers = []string{"z3-fast", "cvc5-int", "z3", "z3-new"}
 	}
 	ex := &explorer{prog: prog, fn: fn, cfg: cfg, t0: time.Now(), cov: map[*ssa.BasicBlock]bool{}}
 	ex.cond = sync.NewCond(&ex.mu)
@@ -479,12 +482,94 @@ func shorten(s string) string {
 
 // ---- path condition and decisions ----
 
-func (r *Run) addPC(t *Term) {
+func (r *Run) addPC(t *Term) { r.addPCx(t, false) }
+
+// addPCx appends a conjunct. implied=true means pc already entails t, so a model of pc stays a model.
+func (r *Run) addPCx(t *Term, implied bool) {
 	if t.isTrue() {
 		return
 	}
+	tt := r.w.pf.tt
+	id := tt.intern(t)
 	r.pc = append(r.pc, t)
-	r.pcIDs = append(r.pcIDs, r.w.pf.tt.intern(t))
+	r.pcIDs = append(r.pcIDs, id)
+	vars := tt.varsOf(id, r.w.pf.varMemo)
+	if r.pcVars == nil {
+		r.pcVars = map[string]bool{}
+	}
+	if !implied && len(r.mvalid) > 0 {
+		if v, ok := r.evalModel(t); !ok || !v {
+			r.mvalid = map[string]bool{} // the cached model no longer covers the path condition
+		}
+	}
+	for _, v := range vars {
+		name := tt.terms[v-1].name
+		if !r.pcVars[name] {
+			r.pcVars[name] = true
+			if !implied && len(r.mvalid) > 0 {
+				r.mvalid[name] = true // was free; its model value (default 0) satisfied t
+			}
+		}
+	}
+}
+
+// evalModel evaluates t under the cached model when that model is known to
+// satisfy every path-condition conjunct that shares variables with t.
+func (r *Run) evalModel(t *Term) (val bool, ok bool) {
+	if r.mvalid == nil {
+		return false, false
+	}
+	tt := r.w.pf.tt
+	id := tt.intern(t)
+	for _, v := range tt.varsOf(id, r.w.pf.varMemo) {
+		name := tt.terms[v-1].name
+		if !r.mvalid[name] && r.pcVars[name] {
+			return false, false
+		}
+	}
+	if r.model == nil {
+		r.model = Model{}
+	}
+	return t.eval(r.model, map[*Term]uint64{}) == 1, true
+}
+
+// installModel records a solver model for the variables it covers.
+func (r *Run) installModel(m Model) {
+	if m == nil {
+		return
+	}
+	if r.model == nil {
+		r.model = Model{}
+	}
+	if r.mvalid == nil {
+		r.mvalid = map[string]bool{}
+	}
+	for k, v := range m {
+		r.model[k] = v
+		r.mvalid[k] = true
+	}
+}
+
+// feasibleM is feasible() that also returns a model of the queried slice when one was needed.
+func (r *Run) feasibleM(t *Term) (bool, Model) {
+	if t.isTrue() {
+		return true, nil
+	}
+	if t.isFalse() {
+		return false, nil
+	}
+	if v, ok := r.evalModel(t); ok && v {
+		r.w.pf.stats.ModelHits++
+		return true, nil
+	}
+	res, m := r.w.pf.check(r.pcIDsNow(), r.w.pf.tt.intern(t), true, false)
+	if res == "unsat" {
+		return false, nil
+	}
+	if res != "sat" {
+		m = nil
+	}
+	return true, m
 }
 
 func (r *Run) pcIDsNow() []int {
@@ -545,6 +630,8 @@ func (r *Run) decideTerms(kind string, opts []*Term) int {
 		return d.Chosen
 	}
 	var feas []int
+	var firstModel Model
+	haveFirst := false
 	for k, o := range opts {
 		if o.isFalse() {
 			continue
@@ -554,12 +641,18 @@ func (r *Run) decideTerms(kind string, opts []*Term) int {
 			feas = append(feas, k)
 			break
 		}
-		if r.feasible(o) {
+		if ok, m := r.feasibleM(o); ok {
+			if len(feas) == 0 {
+				firstModel, haveFirst = m, true
+			}
 			feas = append(feas, k)
 		}
 	}
 	if len(feas) == 0 {
 		panic(pathAbort{"infeasible"})
+	}
+	if haveFirst {
+		r.installModel(firstModel)
 	}
 	r.trail = append(r.trail, Decision{Kind: kind, N: len(opts), Chosen: feas[0], alts: feas[1:]})
 	r.pos++
@@ -716,7 +809,7 @@ func (r *Run) assert(c *Term, label string) {
 				ex.mu.Unlock()
 			}
 		}
-		r.addPC(c)
+		r.addPCx(c, true)
 	case "sat":
 		r.violation("assert", label, neg)
 		// continue on the side where the assertion holds, if any
@@ -734,9 +827,14 @@ func (r *Run) assume(c *Term) {
 	if c.isTrue() {
 		return
 	}
-	if c.isFalse() || !r.feasible(c) {
+	if c.isFalse() {
 		panic(pathAbort{"assume infeasible"})
 	}
+	ok, m := r.feasibleM(c)
+	if !ok {
+		panic(pathAbort{"assume infeasible"})
+	}
+	r.installModel(m)
 	r.addPC(c)
 }
 
